@@ -24,3 +24,10 @@ def c11_symbolic_sqrt_of_zero(w):
             and w.get('exc_type') == 'NameError'
             and ("name 'nan'" in out or "name 'zoo'" in out)
             and 'sqrtfam' in (prog.get('feats') or []))
+
+
+def c07_iterative_inverse_cancellation(w):
+    """d >= 6: the generated inverse is the right rational function (exact with 400-bit coefficients) but loses up to ~1e-2 in double
+    precision because expanded degree-2^((d+1)//2) polynomials with float constants cancel catastrophically."""
+    return (w.get('kind') == 'inverse inaccurate in double precision (cancellation), exact in high precision'
+            and w.get('op') == 'inv' and int(w.get('d') or 0) >= 6 and w.get('high_precision_recheck') == 'exact-in-high-precision')
